@@ -231,7 +231,8 @@ func (c *Conn) Write(p []byte) (int, error) {
 			n, _ = c.write(p)
 			return n, f.Err
 		}
-		if f.Short > 0 && f.Short < len(p) {
+		if f.Short > 0 && f.Short < len(p) && k == f.At {
+			// the faulty call itself hands over part of the data; a sticky fault lets nothing through afterwards
 			n, _ = c.write(p[:f.Short])
 		}
 		return n, f.Err
